@@ -73,7 +73,7 @@ Definition set_cconn (p : pool) (c : nat) : pool := p <| cl := upd (cl p) c (mkC
 Definition can_create (k : cfg) (p : pool) : bool :=
   (k_max_req k =? 0) || (req p <? 0) || (req p <? k_max_req k).
 (* Increase / Decrease always count (resource_manager.go since c8b45b4d7, pinned by Gen.PoolSrc poolres_src_counts_unlimited);
-   max_requests = 0 only means that CanCreate admits everything *)
+   max_requests = 0 only means that CanCreate accepts everything *)
 Definition req_inc (k : cfg) (p : pool) : pool := p <| req := req p + 1 |>.
 Definition req_dec (k : cfg) (p : pool) : pool := p <| req := req p - 1 |>.
 
